@@ -75,6 +75,11 @@ CHECKS = {
             "Block interval 10 ms-10 s, idle/block ratio 0.2-100, production durations 0-3x block interval, notifications incl. inside productions, lazy and normal mode, 20-500 block intervals per run. Every notification must be followed by a production start within one block interval (counted from the end of a production in flight), gaps between starts never below the block interval and never above idle(+duration)+block interval; normal mode one block per interval regardless of notifications. Sampling, not proof.",
             "publishBlock replaced via hook; same-instant timer ties are resolved by the Go runtime's select (oracle holds for every choice; replay retries).",
             "DESIGN.md §5 C17", "stepsim"),
+    "C19": ("fault_enumeration",
+            "fault enumeration over the key file image: every truncation length and every byte position x bit flips/replacement on files written by the real code, wrong passphrases, legacy format, export/import; oracle = Load fails or yields exactly the original, self-consistent key; never a panic",
+            "For each (passphrase class, format) variant the key file written by the real ImportPrivateKey is damaged at every truncation length and every byte position (2 bit flips + a replacement byte in quick, all 8 bit flips in thorough) and loaded with the real loader; a successful load must report the created public key, produce signatures that verify under it and have the address full nodes derive; wrong passphrases never load; export->import->load preserves the key; seeded double faults on top. Exhaustive over single faults of the enumerated variants.",
+            "Torn writes are covered as truncations (superset). Salt/nonce come from crypto/rand, so byte values (not positions) differ between runs.",
+            "DESIGN.md §5 C19", "stepsim"),
     "C20": ("exploration",
             "deterministic simulation: real based sequencer over simulated disk and DA; harness plays the block manager with seeded size limits, DA growth, retrieval errors and restarts; DA-order prefix oracle and bounded liveness",
             "Seeded DA contents (0-6 tx blobs per height, sizes 1-200 B), heights appearing over time, GetNextBatch with limits from 4 B to default, scripted retrieval failures, restarts with/without the caller's cursor, drift 1-4. Released transactions must form a gap-free, repeat-free prefix of the DA order, no batch may exceed its limit, and with a healthy DA everything must be released within a call budget. Sampling, not proof.",
